@@ -52,7 +52,8 @@ type world struct {
 	sig     []string
 	closed  bool
 
-	source   string // toml | legacy-ini | flag
+	raced    map[string]bool // proxy names that were the subject of racing duplicate registrations
+	source   string          // toml | legacy-ini | flag
 	spelling string
 
 	sawDeadAddr atomic.Bool
@@ -72,6 +73,9 @@ func newWorld(c *h.Case, cfg worldCfg) (*world, error) {
 		peers: map[int]*h.Peer{}, live: map[int]map[string]pinfo{}, ended: map[int]bool{}, locks: map[string]*sync.Mutex{}}
 	w.squats = [2]map[int]io.Closer{{}, {}}
 	w.block = takeBlock()
+	if w.block == nil {
+		return nil, fmt.Errorf("no free port block left")
+	}
 	w.bind = w.block[0]
 	cand := append([]int(nil), w.block[1:]...)
 	// a contiguous run plus scattered singles so that both forms of allowPorts entries occur
@@ -439,6 +443,8 @@ func errClass(e string) string {
 		return "quota"
 	case strings.Contains(e, "already exists"):
 		return "name-exists"
+	case strings.Contains(e, "proxy name") && strings.Contains(e, "already in use"):
+		return "name-lost-at-add"
 	case strings.Contains(e, "port already used"):
 		return "port-used"
 	case strings.Contains(e, "must be in the range"):
@@ -459,13 +465,37 @@ func errClass(e string) string {
 
 // reg sends a registration on session s, records it, applies the per-reply oracles and keeps the ledger.
 func (w *world) reg(s int, name, proto string, port int, group, key string) opOut {
-	p := w.session(s)
-	if p == nil {
+	if w.session(s) == nil {
 		return opOut{Unk: true}
 	}
 	unlock := w.lock("n:" + name)
 	defer unlock()
-	in := opIn{Kind: "reg", Sess: s, Name: name, Proto: proto, Port: port, Group: group, GroupKey: key}
+	return w.regRaw(s, name, proto, port, group, key, false)
+}
+
+// regNoLock is reg without the one-at-a-time rule for the proxy name (racing duplicate registrations).
+func (w *world) regNoLock(s int, name, proto string, port int, group, key string) opOut {
+	w.mu.Lock()
+	if w.raced == nil {
+		w.raced = map[string]bool{}
+	}
+	w.raced[name] = true
+	w.mu.Unlock()
+	return w.regRaw(s, name, proto, port, group, key, true)
+}
+
+func (w *world) regRaw(s int, name, proto string, port int, group, key string, raced bool) opOut {
+	p := w.session(s)
+	if p == nil {
+		return opOut{Unk: true}
+	}
+	// a raced registration has a name of its own in the reference allocator: the server looks the name up first, acquires
+	// the port then and enters the name last, so name exclusivity (C12's subject) is not one step with the port acquisition
+	mname := name
+	if raced {
+		mname = fmt.Sprintf("%s#r%d", name, s)
+	}
+	in := opIn{Kind: "reg", Sess: s, Name: mname, Proto: proto, Port: port, Group: group, GroupKey: key}
 	m := &msg.NewProxy{ProxyName: name, ProxyType: proto, RemotePort: port, Group: group, GroupKey: key}
 	if proto == "stcp" {
 		m.Sk, m.AllowUsers, m.RemotePort = "k", []string{"*"}, 0
@@ -483,6 +513,29 @@ func (w *world) reg(s int, name, proto string, port int, group, key string) opOu
 	w.mu.Lock()
 	w.sig = append(w.sig, proto+"/"+portClass(w, port)+"/"+errClass(resp.Error)+map[bool]string{true: "/g", false: ""}[group != ""])
 	w.mu.Unlock()
+	if !out.OK && raced && errClass(resp.Error) == "name-exists" {
+		// refused at the name look-up, before any port was touched: nothing for the port allocator (names are C12's subject)
+		w.c.Ev("raced-name-exists", "sess", s, "name", name)
+		return out
+	}
+	if !out.OK && raced && errClass(resp.Error) == "name-lost-at-add" && (port == 0 || group != "" || proto == "stcp") {
+		// lost the name after acquiring a port the reply does not tell: nothing to put into the history; the ledger and
+		// the fill test at quiescence still see a port that was not given back
+		w.c.Ev("raced-name-lost", "sess", s, "name", name)
+		return out
+	}
+	if !out.OK && strings.Contains(resp.Error, "is already in use") && !strings.Contains(resp.Error, "address") && proto != "stcp" && port != 0 && group == "" {
+		// lost the race for the name after its own port was acquired and bound: the requested port was held in between
+		// (two steps for the reference allocator under a name of its own: acquisition, undo justified by the live winner)
+		pseudo := mname
+		if !raced {
+			pseudo = fmt.Sprintf("%s#dup%d", name, s)
+		}
+		in.Kind, in.Name = "acq", pseudo
+		w.record(s, in, opOut{OK: true, Port: port}, call, ret)
+		w.record(s, opIn{Kind: "undup", Sess: s, Name: pseudo, Dup: name, Proto: proto}, opOut{OK: true}, call, ret)
+		return out
+	}
 	if !out.OK {
 		if m := listenErrRe.FindStringSubmatch(resp.Error); m != nil && proto != "stcp" {
 			// refused because the listen after the acquisition failed: the port named in the error was held in
@@ -490,7 +543,7 @@ func (w *world) reg(s int, name, proto string, port int, group, key string) opOu
 			lp, _ := strconv.Atoi(m[1])
 			in.Kind = "acq"
 			w.record(s, in, opOut{OK: true, Port: lp}, call, ret)
-			w.record(s, opIn{Kind: "unacq", Sess: s, Name: name, Proto: proto}, opOut{OK: true}, call, ret)
+			w.record(s, opIn{Kind: "unacq", Sess: s, Name: mname, Proto: proto}, opOut{OK: true}, call, ret)
 			return out
 		}
 		w.record(s, in, out, call, ret)
@@ -499,7 +552,7 @@ func (w *world) reg(s int, name, proto string, port int, group, key string) opOu
 	if proto == "stcp" {
 		w.record(s, in, out, call, ret)
 		w.mu.Lock()
-		w.live[s][name] = pinfo{Sess: s, Proto: proto}
+		w.live[s][name] = pinfo{Sess: s, Proto: proto, Alias: mname}
 		w.mu.Unlock()
 		return out
 	}
@@ -519,9 +572,9 @@ func (w *world) reg(s int, name, proto string, port int, group, key string) opOu
 	// an acknowledged registration is two steps for the reference allocator: acquisition (accounting) and listen
 	in.Kind = "acq"
 	w.record(s, in, out, call, ret)
-	w.record(s, opIn{Kind: "bind", Sess: s, Name: name, Proto: proto}, opOut{OK: true}, call, ret)
+	w.record(s, opIn{Kind: "bind", Sess: s, Name: mname, Proto: proto}, opOut{OK: true}, call, ret)
 	w.mu.Lock()
-	w.live[s][name] = pinfo{Sess: s, Proto: proto, Port: rp, Group: group}
+	w.live[s][name] = pinfo{Sess: s, Proto: proto, Port: rp, Group: group, Alias: mname}
 	w.mu.Unlock()
 	if !w.allowed[rp] {
 		w.c.Violation("granted-port-outside-allow-ports-"+kind, "proxy %s (%s, requested port %d) was granted %q; allowPorts = %v", name, kind, port, resp.RemoteAddr, w.allowedList())
@@ -584,10 +637,14 @@ func (w *world) closeP(s int, name string) {
 		return
 	}
 	w.mu.Lock()
+	mname := name
+	if a := w.live[s][name].Alias; a != "" {
+		mname = a
+	}
 	delete(w.live[s], name)
 	w.sig = append(w.sig, "close")
 	w.mu.Unlock()
-	w.record(s, opIn{Kind: "close", Sess: s, Name: name}, opOut{OK: true}, call, ret)
+	w.record(s, opIn{Kind: "close", Sess: s, Name: mname}, opOut{OK: true}, call, ret)
 	run.Count("closes", 1)
 }
 
@@ -629,7 +686,10 @@ func (w *world) end(s int) {
 	w.sig = append(w.sig, "end")
 	w.mu.Unlock()
 	// the server closes the session's proxies one after the other: one close step per proxy inside the drop's interval
-	for n := range was {
+	for n, pi := range was {
+		if pi.Alias != "" {
+			n = pi.Alias
+		}
 		w.record(s, opIn{Kind: "close", Sess: s, Name: n}, opOut{OK: true}, call, ret)
 	}
 	w.record(s, opIn{Kind: "end", Sess: s}, opOut{OK: true}, call, ret)
@@ -786,23 +846,42 @@ func portIsFree(p int) bool {
 	return true
 }
 
+var blockBusy sync.Map // first port of a block -> *atomic.Int64: how often it was found bound while in the pool
+
+// takeBlock returns a block whose ports are all free, or nil when none can be had: a tree that leaves listeners behind
+// uses blocks up (a block found bound three times is retired); the cases that get no block are inconclusive.
 func takeBlock() []int {
-	for {
-		b := <-blockPool
-		ok := h.Eventually(3*time.Second, func() bool {
-			for _, p := range b {
-				if !portIsFree(p) {
-					return false
-				}
+	allFree := func(b []int) bool {
+		for _, p := range b {
+			if !portIsFree(p) {
+				return false
 			}
-			return true
-		})
-		if ok {
+		}
+		return true
+	}
+	for tries := 0; tries < 400; tries++ {
+		var b []int
+		select {
+		case b = <-blockPool:
+		case <-time.After(20 * time.Second):
+			return nil
+		}
+		if allFree(b) {
+			blockBusy.Delete(b[0])
 			return b
+		}
+		v, _ := blockBusy.LoadOrStore(b[0], new(atomic.Int64))
+		if v.(*atomic.Int64).Add(1) >= 3 {
+			run.Count("port_block_retired_still_bound", 1)
+			continue
 		}
 		run.Count("port_block_still_busy", 1)
 		blockPool <- b
+		if tries >= 20 {
+			time.Sleep(100 * time.Millisecond)
+		}
 	}
+	return nil
 }
 
 func giveBlock(b []int) {
